@@ -93,7 +93,13 @@ class Gen(object):
                 items.append(['figure', self.mk(), self.mk()])
             elif c < 0.98:
                 items.append(['footlist', self.mk(), self.mk('fk'), self.mk()])
+            elif c < 0.984:
+                items.append(['foottext', self.mk(), self.mk('fk'), self.mk()])       # \footnotetext without a mark
+            elif c < 0.987:
+                items.append(['footmarktext', self.mk(), self.mk('fk'), self.mk()])   # \footnotemark ... \footnotetext
             elif c < 0.99:
+                items.append(['footquote', self.mk(), self.mk('fk'), self.mk()])      # a footnote inside a quote
+            elif c < 0.995:
                 items.append(['description', self.mk(), self.mk()])
             else:
                 items.append(['quote', self.mk(), self.mk()])
@@ -175,6 +181,12 @@ def render_body(items, out):
             out.append('\\begin{description}\\item[%s] %s\\end{description}\n' % (it[1], it[2]))
         elif k == 'quote':
             out.append('\\begin{quote}%s\\end{quote}\n\\begin{center}%s\\end{center}\n' % (it[1], it[2]))
+        elif k == 'foottext':
+            out.append('%s\\footnotetext{%s} %s.\n' % (it[1], it[2], it[3]))
+        elif k == 'footmarktext':
+            out.append('%s\\footnotemark{} %s\\footnotetext{%s}.\n' % (it[1], it[3], it[2]))
+        elif k == 'footquote':
+            out.append('\\begin{quote}%s\\footnote{%s} %s\\end{quote}\n' % (it[1], it[2], it[3]))
         elif k == 'abstract':
             out.append('\\begin{abstract}%s abstract\\end{abstract}\n' % it[1])
         elif k == 'toc':
@@ -221,7 +233,7 @@ def body_markers(items):
             b.extend(it[1:4])
         elif k in ('figure', 'description', 'quote'):
             b.extend(it[1:3])
-        elif k == 'footlist':
+        elif k in ('footlist', 'foottext', 'footmarktext', 'footquote'):
             b.append(it[1]); f.append(it[2]); b.append(it[3])
         elif k == 'abstract':
             b.append(it[1])
@@ -742,6 +754,22 @@ def enumerate_cases(base_seed, tier):
     test documents under a few configurations (names and run independence only)."""
     import random
     out = []
+    # footnote shapes: \footnotetext with and without a mark, a footnote inside a quote - under every renderer
+    for k, rend in enumerate([['HTML5', 'default'], ['HTML5', 'minimal'], ['XHTML', 'default'], ['Text', 'default']]):
+        for split in ((0, 1, 2) if tier == 'thorough' else (1,)):
+            g = Gen(None)
+            secs = []
+            for shapes in (['foottext', 'footquote'], ['footmarktext', 'foottext'], ['footquote']):
+                body = [['para', [g.mk()]]] + [[sh, g.mk(), g.mk('fk'), g.mk()] for sh in shapes] + [['footpara', g.mk(), g.mk('fk'), g.mk()]]
+                secs.append({'kind': 'section', 'level': 1, 'star': False, 'label': None, 'title': g.mk('tk'), 'body': body, 'children': []})
+            fdoc = {'cls': 'article', 'body': [['footquote', g.mk(), g.mk('fk'), g.mk()]], 'children': secs}
+            r = random.Random(core.h64('C13-foot', base_seed, k, split))
+            cfg = {'split': split, 'template': 'index [$id, sect$num(4)]', 'single': False, 'bad': None, 'badsub': '-', 'renderer': rend}
+            other = dict(cfg, split=0, template='front [$id, x$num(2)]')
+            env = {'hashseed': r.randrange(1, 1 << 30), 'perm': r.randrange(1 << 30), 'dclock': 3600, 'cwd_depth': 0,
+                   'outdir': 'out', 'unrelated': 0, 'useexec': False}
+            out.append({'property': PID, 'seed': core.h64('C13-foot', k, split), 'swarm': {'cfg': cfg, 'other': other, 'env': env},
+                        'ops': [{'op': 'DOC', 'doc': fdoc}, {'op': 'E0'}]})
     for k, (tpl, labels) in enumerate(COLLISIONS):
         for split in ((1, 2) if tier == 'thorough' else (1,)):
             r = random.Random(core.h64('C13-collide', base_seed, k, split))
